@@ -122,6 +122,8 @@ def run_pipeline(case):
 
     traj = sitesys.full_trajectory(case)
     tr = gcall(traj.transitions_between_sites, sitesys.sites(case), 'Li', site_radius=sitesys.radius_arg(case), site_inner_fraction=case['inner_fraction'])
+    for obj in (traj, tr.trajectory, tr.diff_trajectory):
+        cases.prelude(obj, case.get('prelude'))
     j = gcall(Jumps, tr, allow=(ValueError,))
     if isinstance(j, Raised):
         raise Skip()
@@ -228,6 +230,39 @@ def small_case(tier, idx):
     return dict(_GEO, rows=rows, window=wc[0], cutoff=wc[1])
 
 
+# ----------------------------------------------------------------------------- one jump with hundreds of partners
+CROWD = {'quick': [255, 256, 257, 300, 511, 512, 513], 'thorough': [255, 256, 257, 300, 511, 512, 513, 767, 768, 1023, 1024, 1025, 1300]}
+
+
+def crowd_size(tier):
+    return len(CROWD[tier]) * 2
+
+
+def crowd_case(tier, idx):
+    """a long-transit hub jump overlapping P quick jumps of 2-5 other atoms (spaced so that the quick jumps pair only with the hub)"""
+    P = CROWD[tier][idx // 2]
+    n_other = [2, 5][idx % 2]
+    rows = [(0, 0, 1, 0, 3 * P + 5)]
+    where = {}
+    for k in range(P):
+        a = 1 + k % n_other
+        s = where.get(a, 2)
+        d = 3 if s == 2 else 2
+        where[a] = d
+        rows.append((a, s, d, 3 * k + 1, 3 * k + 2))
+    lat = gen.fixed_lattice(['cubic', 'triclinic', 'hexagonal'][idx % 3], 'lower')
+    frac = [[0.05, 0.05, 0.05], [0.15, 0.05, 0.05], [0.05, 0.15, 0.05], [0.95, 0.95, 0.05]]  # all within ~1.5 A of each other (one through the cell face)
+    return {'lattice': lat, 'rows': rows, 'sites': {'frac': frac, 'labels': ['A', 'A', 'B', 'B']}, 'window': 1, 'cutoff': 2.5, 'index_mode': ['range', 'sorted-shifted'][idx % 2]}
+
+
+def run_crowd(case):
+    info = run_table(case)
+    P = len(case['rows']) - 1
+    info['labels'] = info['labels'] + [f'partners={P}']
+    info['count'] = P + 1
+    return info
+
+
 SUBS = [
     Sub(name='tables', kind='hyp', run=run_table, strategy=table_cases,
         rule='1-5 atoms, <=25 sequential jumps with transits 1..40 (incl. window+1, 2*window+3), window in {0,1,2,3,5,10,20}, cut-off free or 0.05 A beside a site-site distance, rows in random order; reported pairs vs O(n^2) model',
@@ -241,4 +276,7 @@ SUBS = [
     Sub(name='enum-small-tables', kind='enum', run=run_table, size=small_size, case_at=small_case, exhaustive=True,
         rule='complete enumeration: every pair of single jumps of two atoms among 3 collinear sites with start < stop in 0..5 (90 x 90), windows 0-2, cut-offs 1/2/3 A (site distances 1.8, 1.35 through the cell face, 3.15); thorough adds a return jump and a long-transit third atom',
         shards={'quick': 16, 'thorough': 16}),
+    Sub(name='crowded-tables', kind='enum', run=run_crowd, size=crowd_size, case_at=crowd_case, exhaustive=True,
+        rule='complete enumeration of a small family: one long-transit jump that is a collective partner of P quick jumps of 2 / 5 other atoms, P in {255, 256, 257, 300, 511, 512, 513} (quick) + {767 .. 1300} (thorough); pairs, solo / collective counts and the site-pair matrix vs the O(n^2) model (counter widths, per-jump partner bookkeeping); each jump is one evaluation',
+        shards={'quick': 14, 'thorough': 16}),
 ]
